@@ -403,6 +403,7 @@ def _typed_args(E, c, bound, st):
 def spec_state(E, st, frame, old=None):
     s = st.copy()
     s.pc = st.pc            # shared: facts introduced while evaluating a specification (pure-call axioms) stay on the path
+    s.status = None
     s.spec = 1
     s.bound = [frame]
     s.old = old
@@ -692,6 +693,7 @@ def _call_repo_pure(E, fdef, qualname, env, st):
     work.env = env
     work.bound = []          # the callee's scope does not see the caller's bound variables
     work.qvars = []          # branch conditions/facts of the inlined body are collected and merged below
+    work.status = None       # (the caller may be sitting at a return/raise exit while its postcondition is evaluated)
     saved_nofork = work.nofork
     work.nofork = 0
     base = len(work.pc)
